@@ -190,6 +190,10 @@ def to_val(pv, st=None):
     if isinstance(pv, PExc):
         if pv.val is None: raise Unsupported('exception object without identity used as a value')
         return pv.val
+    if isinstance(pv, PSet) and pv.ekind == 'val':
+        k = mkFS(pv.arr)
+        if st is not None: st.assume(fs_c(k) == pv.arr)
+        return Val.FS(k)
     raise Unsupported(f'to_val({type(pv).__name__})')
 
 
